@@ -38,6 +38,7 @@ StructEq(a, b) ==
            [] a.k = "typeddict" -> {a.items[i].key : i \in 1..Len(a.items)} = {b.items[i].key : i \in 1..Len(b.items)}
            [] a.k = "union"    -> /\ \A i \in 1..Len(a.ms) : \E j \in 1..Len(b.ms) : StructEq(a.ms[i], b.ms[j])
                                   /\ \A j \in 1..Len(b.ms) : \E i \in 1..Len(a.ms) : StructEq(a.ms[i], b.ms[j])
+           [] a.k = "known"    -> KVEq(a.o, b.o)      \* hash((type(val), val)): 1, 1.0 and True hash alike
            [] OTHER            -> a = b
 ImplSameHash(a, b) == StructEq(a, b) /\ ~HasUnhashableKnown(a)
 
@@ -53,7 +54,7 @@ ImplEqMembers(s, t) == Len(s) = Len(t) /\ \A i \in 1..Len(s) : s[i].many = t[i].
 ImplEq(a, b) ==
     IF a.k # b.k THEN FALSE
     ELSE CASE a.k = "any"      -> a.src = b.src
-           [] a.k = "known"    -> a.o = b.o
+           [] a.k = "known"    -> KVEq(a.o, b.o)
            [] a.k = "typed"    -> a.c = b.c
            [] a.k = "newtype"  -> a.c = b.c            \* inherited dataclass __eq__ compares typ only
            [] a.k = "generic"  -> a.c = b.c /\ ImplEqSeq(a.args, b.args)
